@@ -1,0 +1,15 @@
+//go:build verif
+
+package tink
+
+// Contracts checked by /verif/gocv (comment-only file; see /verif/DESIGN.md §3).
+
+//@ func (*seekableDecryptingReader).plaintextStartOfSegment
+//@ arith int
+//@ requires s.tinkHeaderLen == 40 && s.css > 56 && s.css <= 1073741824 && j >= 0 && j <= 4294967296
+//@ ensures[C16:segment-start] result == specSegStart(j, s.css)
+
+//@ func (*seekableDecryptingReader).segmentForPlaintextOffset
+//@ arith int
+//@ requires s.tinkHeaderLen == 40 && s.css > 56 && s.css <= 1073741824 && off >= 0
+//@ ensures[C16:segment-of-offset] result >= 0 && specSegStart(result, s.css) <= off && off < specSegStart(result+1, s.css)
